@@ -74,7 +74,7 @@ def gen_cases(tier, seed):
     out = []
     for d in range(24 if quick else 120):
         rng = cg.rng_for(seed, "C20", d)
-        n = rng.randint(2, 5)
+        n = rng.randint(3 if d % 4 == 3 else 2, 5)
         line = [0.0]
         for _ in range(n - 1):
             line.append(line[-1] + rng.choice([0.0, 0.5, 1.5, 3.0, 6.0, 10.0, 15.0]) * rng.uniform(0.5, 1.0))
@@ -89,7 +89,7 @@ def gen_cases(tier, seed):
             # shells 1 and 2 are placed 0.4 % inside and 0.4 % outside the documented cut-off distance to shell 0 for one of
             # the tolerances (1e-16 .. 0.5 in turn): a cut-off computed from a clipped tolerance, a rounded logarithm or a
             # neighbouring exponent differs from the documented one by about a per cent
-            tol_ = [t for t in TOLS if t][(d // 4) % (len(TOLS) - 1)]
+            tol_ = [t for t in TOLS if t][::-1][(d // 4) % (len(TOLS) - 1)]          # 1e-16 first
             a0 = min(cg.val(e) for e in basis[0]["exps"])
             for k_, f_ in ((1, 0.996), (2, 1.004)):
                 ak = min(cg.val(e) for e in basis[k_]["exps"])
